@@ -307,8 +307,10 @@ class ContextChain(ChainMap[SrcDst, Context]):
 
     @property
     def defaults(self) -> dict[str, Any]:
-        for ctx in self.values():
-            return ctx.defaults
+        # The innermost (most recently enabled) context carries the values in force:
+        # every context is enabled with the defaults of the one enclosing it.
+        if self.contexts:
+            return self.contexts[0].defaults
         return {}
 
     @property
